@@ -6,9 +6,9 @@ import "strconv"
 type Policy int
 
 const (
-	PDefault Policy = iota // index-wise list merge
-	PReplace               // replace dictionaries and lists
-	PArrReplace            // replace lists only
+	PDefault    Policy = iota // index-wise list merge
+	PReplace                  // replace dictionaries and lists
+	PArrReplace               // replace lists only
 	PAppend
 	PPrepend
 )
